@@ -252,3 +252,18 @@ Proof. apply heap_ok_wf; vm_compute; reflexivity. Qed.
 
 Example ex_gc_total : exists h', gc exL exH 32 = Ok h' /\ all_unmarked h'.
 Proof. destruct (gc_total exL exH 32 ex_wf_heap ex_all_unmarked) as (h' & H1 & H2 & _). exists h'. auto. Qed.
+
+(** the two trailing-slot skipping loops of sexp_mark_one drop no unmarked pointer: every slot above the
+    one that is finally followed is an immediate, already marked, or equal to the followed slot *)
+Lemma trailing_skip : forall h ws p len n1 n2,
+  skip_marked h ws p len = Ok n1 -> skip_dups ws p n1 = Ok n2 ->
+  (n2 <= n1 <= len)%nat /\
+  forall i, (n2 < i <= len)%nat -> exists v, nth_error ws (p + i) = Some v /\
+    (is_imm v = true \/ ismarked h v \/ nth_error ws (p + n2) = Some v).
+Proof.
+  intros h ws p len n1 n2 E1 E2.
+  destruct (skip_marked_spec _ _ _ _ _ E1) as (H1 & A1). destruct (skip_dups_spec _ _ _ _ E2) as (H2 & A2).
+  split; [lia|]. intros i Hi. destruct (Nat.lt_ge_cases n1 i) as [Hgt|Hle].
+  - destruct (A1 i ltac:(lia)) as (v & Hv & Hc). exists v. split; [exact Hv|]. destruct Hc; auto.
+  - destruct (A2 i ltac:(lia)) as (v & Hv & Hc). exists v. auto.
+Qed.
